@@ -136,9 +136,9 @@ type KV struct {
 // Prog is one generated logging program.
 type Prog struct {
 	Desc   map[string]interface{}
-	Pre    []KV // fields written before the context splice (the level)
-	Ctx    []KV // fields of the logger context
-	Ev     []KV // fields of the event, incl. the message
+	Pre    []KV   // fields written before the context splice (the level)
+	Ctx    []KV   // fields of the logger context
+	Ev     []KV   // fields of the event, incl. the message
 	Tb     string // Gallina: float conversions of time.go (Harness.C09H.tables)
 	JT     *JTables
 	Kinds  []string
@@ -306,9 +306,10 @@ func Fixed(desc string, ctx func(zerolog.Context) zerolog.Context, ev func(*zero
 }
 
 // value constructors for corpus cases
-func KStr(k, s string) KV       { v := pString(s); return KV{k, v.coq, v.want} }
-func KUint(k string, n uint64) KV { v := pUint(n); return KV{k, v.coq, v.want} }
+func KStr(k, s string) KV          { v := pString(s); return KV{k, v.coq, v.want} }
+func KUint(k string, n uint64) KV  { v := pUint(n); return KV{k, v.coq, v.want} }
 func KBytes(k string, b []byte) KV { v := pBytes(b); return KV{k, v.coq, v.want} }
+func KHex(k string, b []byte) KV   { v := pHex(b); return KV{k, v.coq, v.want} }
 func KArr(k string, xs ...KV) KV {
 	vs := make([]val, len(xs))
 	for i, x := range xs {
